@@ -24,6 +24,7 @@
 #include <sys/types.h>
 
 static int log_fd = -2;
+static __thread int dn;      /* deny code of the call being handled */
 static char root[PATH_MAX];
 static size_t root_len;
 static unsigned long seq;
@@ -89,14 +90,32 @@ static int inside(const char *res)
 	return !strncmp(res, root, root_len) && (res[root_len] == '/' || res[root_len] == 0);
 }
 
-/* returns 1 if the call must be denied */
+/* Would the kernel refuse this call whatever we do, leaving the target untouched?  (unlink of a directory, exclusive creation
+ * of something that exists, creating a name that exists, writing a directory, removing a non-empty directory, an empty path.)
+ * Such attempts on a target outside the root are denied like all others, but logged with denied=2 ("could have had no effect"). */
+static int harmless_attempt(const char *call, const char *res, long flags)
+{
+	struct stat st; int exists;
+	if (!strcmp(res, "?empty")) return 1;
+	if (res[0] == '?') return 0;
+	exists = lstat(res, &st) == 0;
+	if (!strcmp(call, "unlink") || !strcmp(call, "unlinkat")) return exists && S_ISDIR(st.st_mode) && !(flags & AT_REMOVEDIR);
+	if (!strncmp(call, "open", 4) || !strcmp(call, "creat"))
+		return exists && (((flags & O_CREAT) && (flags & O_EXCL)) || S_ISDIR(st.st_mode));
+	if (!strncmp(call, "fopen", 5) || !strcmp(call, "freopen")) return exists && S_ISDIR(st.st_mode);
+	if (!strncmp(call, "mkdir", 5) || !strncmp(call, "symlink", 7) || !strcmp(call, "mkfifo") || !strcmp(call, "mknod")) return exists;
+	return 0;
+}
+
+/* returns 0 = allow, 1 = deny, 2 = deny (an attempt that could not have had any effect) */
 static int note(const char *call, int mutating, const char *arg, const char *arg2, int follow, long flags, char *resolved_out)
 {
 	char res[PATH_MAX];
 	init();
 	resolve(arg, follow, res);
 	if (resolved_out) strcpy(resolved_out, res);
-	return mutating && !inside(res);
+	if (!mutating || inside(res)) return 0;
+	return harmless_attempt(call, res, flags) ? 2 : 1;
 }
 
 static void logline(const char *call, int mutating, int denied, long ret, int err, long flags, const char *res, const char *arg, const char *arg2)
@@ -117,7 +136,7 @@ static int open_follows(int flags) { return !((flags & O_NOFOLLOW) || ((flags & 
 static int do_open(const char *name, int (*fn)(const char *, int, ...), const char *path, int flags, mode_t mode)
 {
 	char res[PATH_MAX]; int mut = open_mutating(flags), r, e;
-	if (note(name, mut, path, NULL, open_follows(flags), flags, res)) { logline(name, mut, 1, -1, EPERM, flags, res, path, NULL); errno = EPERM; return -1; }
+	if ((dn = note(name, mut, path, NULL, open_follows(flags), flags, res)) != 0) { logline(name, mut, dn, -1, EPERM, flags, res, path, NULL); errno = EPERM; return -1; }
 	r = fn(path, flags, mode); e = errno;
 	logline(name, mut, 0, r, r < 0 ? e : 0, flags, res, path, NULL);
 	errno = e;
@@ -144,7 +163,7 @@ int openat(int dfd, const char *path, int flags, ...)
 	mode_t mode = 0; char res[PATH_MAX]; int mut = open_mutating(flags), r, e; REAL(openat);
 	if (flags & (O_CREAT | O_TMPFILE)) { va_list ap; va_start(ap, flags); mode = (mode_t) va_arg(ap, int); va_end(ap); }
 	if (dfd != AT_FDCWD && path && path[0] != '/') { r = real(dfd, path, flags, mode); e = errno; logline("openat-fd", mut, 0, r, r < 0 ? e : 0, flags, "?dirfd", path, NULL); errno = e; return r; }
-	if (note("openat", mut, path, NULL, open_follows(flags), flags, res)) { logline("openat", mut, 1, -1, EPERM, flags, res, path, NULL); errno = EPERM; return -1; }
+	if ((dn = note("openat", mut, path, NULL, open_follows(flags), flags, res)) != 0) { logline("openat", mut, dn, -1, EPERM, flags, res, path, NULL); errno = EPERM; return -1; }
 	r = real(dfd, path, flags, mode); e = errno;
 	logline("openat", mut, 0, r, r < 0 ? e : 0, flags, res, path, NULL); errno = e;
 	return r;
@@ -153,7 +172,7 @@ int openat(int dfd, const char *path, int flags, ...)
 int creat(const char *path, mode_t mode)
 {
 	char res[PATH_MAX]; int r, e; REAL(creat);
-	if (note("creat", 1, path, NULL, 1, 0, res)) { logline("creat", 1, 1, -1, EPERM, 0, res, path, NULL); errno = EPERM; return -1; }
+	if ((dn = note("creat", 1, path, NULL, 1, 0, res)) != 0) { logline("creat", 1, dn, -1, EPERM, 0, res, path, NULL); errno = EPERM; return -1; }
 	r = real(path, mode); e = errno; logline("creat", 1, 0, r, r < 0 ? e : 0, 0, res, path, NULL); errno = e; return r;
 }
 
@@ -162,13 +181,13 @@ static int fmode_mutating(const char *m) { return m && (strchr(m, 'w') || strchr
 FILE *fopen(const char *path, const char *mode)
 {
 	char res[PATH_MAX]; int mut = fmode_mutating(mode), e; FILE *f; REAL(fopen);
-	if (note("fopen", mut, path, NULL, 1, 0, res)) { logline("fopen", mut, 1, -1, EPERM, 0, res, path, mode); errno = EPERM; return NULL; }
+	if ((dn = note("fopen", mut, path, NULL, 1, 0, res)) != 0) { logline("fopen", mut, dn, -1, EPERM, 0, res, path, mode); errno = EPERM; return NULL; }
 	f = real(path, mode); e = errno; logline("fopen", mut, 0, f ? 0 : -1, f ? 0 : e, 0, res, path, mode); errno = e; return f;
 }
 FILE *fopen64(const char *path, const char *mode)
 {
 	char res[PATH_MAX]; int mut = fmode_mutating(mode), e; FILE *f; REAL(fopen64);
-	if (note("fopen64", mut, path, NULL, 1, 0, res)) { logline("fopen64", mut, 1, -1, EPERM, 0, res, path, mode); errno = EPERM; return NULL; }
+	if ((dn = note("fopen64", mut, path, NULL, 1, 0, res)) != 0) { logline("fopen64", mut, dn, -1, EPERM, 0, res, path, mode); errno = EPERM; return NULL; }
 	f = real(path, mode); e = errno; logline("fopen64", mut, 0, f ? 0 : -1, f ? 0 : e, 0, res, path, mode); errno = e; return f;
 }
 FILE *freopen(const char *path, const char *mode, FILE *s)
@@ -182,7 +201,7 @@ FILE *freopen(const char *path, const char *mode, FILE *s)
 	int name proto                                                                                           \
 	{                                                                                                        \
 		char res[PATH_MAX]; int r, e; REAL(name);                                                            \
-		if (note(#name, 1, patharg, NULL, follow, 0, res)) { logline(#name, 1, 1, -1, EPERM, 0, res, patharg, NULL); errno = EPERM; return -1; } \
+		if ((dn = note(#name, 1, patharg, NULL, follow, 0, res)) != 0) { logline(#name, 1, dn, -1, EPERM, 0, res, patharg, NULL); errno = EPERM; return -1; } \
 		r = real callargs; e = errno; logline(#name, 1, 0, r, r < 0 ? e : 0, 0, res, patharg, NULL); errno = e; return r; \
 	}
 
@@ -202,7 +221,7 @@ SIMPLE1(mknod, 0, (const char *path, mode_t mode, dev_t dev), (path, mode, dev),
 int symlink(const char *target, const char *linkpath)
 {
 	char res[PATH_MAX]; int r, e; REAL(symlink);
-	if (note("symlink", 1, linkpath, target, 0, 0, res)) { logline("symlink", 1, 1, -1, EPERM, 0, res, linkpath, target); errno = EPERM; return -1; }
+	if ((dn = note("symlink", 1, linkpath, target, 0, 0, res)) != 0) { logline("symlink", 1, dn, -1, EPERM, 0, res, linkpath, target); errno = EPERM; return -1; }
 	r = real(target, linkpath); e = errno; logline("symlink", 1, 0, r, r < 0 ? e : 0, 0, res, linkpath, target); errno = e; return r;
 }
 
@@ -223,7 +242,7 @@ int link(const char *a, const char *b) { REAL(link); return two_paths("link", re
 	{                                                                                                        \
 		char res[PATH_MAX]; int r, e; REAL(name);                                                            \
 		if (dfd != AT_FDCWD && patharg && patharg[0] != '/') { init(); logline(#name "-fd", 1, root_len != 0, -1, EPERM, 0, "?dirfd", patharg, NULL); if (root_len) { errno = EPERM; return -1; } return real callargs; } \
-		if (note(#name, 1, patharg, NULL, follow_expr, 0, res)) { logline(#name, 1, 1, -1, EPERM, 0, res, patharg, NULL); errno = EPERM; return -1; } \
+		if ((dn = note(#name, 1, patharg, NULL, follow_expr, 0, res)) != 0) { logline(#name, 1, dn, -1, EPERM, 0, res, patharg, NULL); errno = EPERM; return -1; } \
 		r = real callargs; e = errno; logline(#name, 1, 0, r, r < 0 ? e : 0, 0, res, patharg, NULL); errno = e; return r; \
 	}
 AT1(mkdirat, 0, (int dfd, const char *path, mode_t mode), (dfd, path, mode), dfd, path)
